@@ -862,3 +862,85 @@ func initOnlyGlobal(p *Program, g *ssa.Global) bool {
 	}
 	return inInit > 0 && elsewhere == 0
 }
+
+// S18g: the options of the sandbox configuration are read independently.  `scope` and `stdlib` are separate keys of
+// the config tuple; whether one is looked up must not depend on whether the other was present.  A lookup of one
+// key on the not-found (or found) branch of another key's lookup silently ignores that key for some configurations,
+// and a sandbox that was given a restricted library then runs with the default one.
+func ruleConfigKeysIndependent(p *Program, r *Report) {
+	r.Begin("S18g", "independent option reads: in every function of package syntax that returns an EvalConfig, no lookup of a constant config key (Get(\"…\")) is control-dependent on the found-flag of the lookup of a different key", 2)
+	defer r.End()
+	n := 0
+	for _, fn := range p.RepoFns {
+		if PkgPathOf(fn) != Mod+"/syntax" || fn.Blocks == nil {
+			continue
+		}
+		res := fn.Signature.Results()
+		isCfg := false
+		for i := 0; i < res.Len(); i++ {
+			if nt, ok := Deref(res.At(i).Type()).(*types.Named); ok && nt.Obj().Name() == "EvalConfig" {
+				isCfg = true
+			}
+		}
+		if !isCfg {
+			continue
+		}
+		r.Fn(FnName(fn))
+		type getT struct {
+			call *ssa.Call
+			key  string
+		}
+		var gets []getT
+		ForEachInstr(fn, func(ins ssa.Instruction) {
+			c, ok := ins.(*ssa.Call)
+			if !ok {
+				return
+			}
+			name := ""
+			if c.Call.IsInvoke() {
+				name = c.Call.Method.Name()
+			} else if g := c.Call.StaticCallee(); g != nil {
+				name = g.Name()
+			}
+			if name != "Get" {
+				return
+			}
+			for _, a := range c.Call.Args {
+				if k, ok := a.(*ssa.Const); ok && k.Value != nil && k.Value.Kind() == constant.String {
+					gets = append(gets, getT{c, constant.StringVal(k.Value)})
+				}
+			}
+		})
+		if len(gets) == 0 {
+			continue
+		}
+		pd := NewPostDom(fn)
+		for _, g := range gets {
+			n++
+			other := ""
+			for _, d := range pd.TransitiveControlDeps(g.call.Block()) {
+				cond := IfCond(d.Br)
+				if cond == nil {
+					continue
+				}
+				for _, h := range gets {
+					if h.key == g.key || h.call == g.call {
+						continue
+					}
+					if DependsOn(cond, func(x ssa.Value) bool {
+						ex, ok := x.(*ssa.Extract)
+						return ok && ex.Tuple == ssa.Value(h.call) && ex.Index == 1
+					}) {
+						other = h.key
+					}
+				}
+			}
+			r.Check(other == "", fmt.Sprintf("key@%s#%s", FnName(fn), g.key), "looked up whatever other keys are present", fmt.Sprintf("%s looks up the config key %q only depending on whether the key %q was present: a configuration that carries both (or neither) has %q silently ignored, so the sandbox runs with a default instead of what it was given", FnName(fn), g.key, other, g.key), g.call.Pos())
+		}
+	}
+	if n == 0 {
+		r.Undecided("sites", "no constant-key lookup found in a function returning an EvalConfig", 0)
+	}
+}
+
+func init() { register("C18", Rule{"S18g", ruleConfigKeysIndependent}) }
